@@ -98,7 +98,25 @@ func (w *c03World) rep(k int, canonical bool) int {
 	return k
 }
 
+// observe projects a version through the public API.  A panic inside the library while doing so (an iterator running past
+// its node, ...) is part of the observation: it is reported as dups = 1000 + (number of elements delivered before the
+// panic), which no specification accepts (the iterator delivers every entry exactly once).
 func (w *c03World) observe(v c03Ver) (obs []int, size int, empty bool, it []int, dups int) {
+	defer func() {
+		if r := recover(); r != nil {
+			dups += 1000
+			if obs == nil {
+				obs = make([]int, w.c.NK)
+			}
+			if it == nil {
+				it = make([]int, w.c.NK)
+			}
+		}
+	}()
+	return w.observe0(v)
+}
+
+func (w *c03World) observe0(v c03Ver) (obs []int, size int, empty bool, it []int, dups int) {
 	nk := w.c.NK
 	obs = make([]int, nk)
 	it = make([]int, nk)
